@@ -25,8 +25,8 @@ try_read_validate(Yes,Yes,Yes) = Ok(d[offset := None, data := data[n..]]) with t
 
 fn parts(t: Tier) -> Vec<Part> {
     let a = match t {
-        Tier::Quick => 400_000,
-        Tier::Thorough => 8_000_000,
+        Tier::Quick => 1_200_000,
+        Tier::Thorough => 16_000_000,
     };
     vec![tape("data", a, 300)]
 }
